@@ -112,6 +112,11 @@ void COTPdoReset(CO_TPDO *pdo, uint16_t num)
     }
     wp->Flags = 0;
 
+    /* inactive until the stored configuration is activated completely */
+    wp->Identifier = CO_TPDO_COBID_OFF;
+    wp->ObjNum     = 0;
+    wp->Event      = 0;
+
     /* remove the object links of the previous mapping */
     COTPdoMapDelNum(pdo->Node->TMap, num);
     
@@ -151,7 +156,8 @@ void COTPdoReset(CO_TPDO *pdo, uint16_t num)
     /* pdo mapping settings */
     err = COTPdoGetMap(pdo, num);
     if (err != CO_ERR_NONE) {
-        pdo->Node->Error = CO_ERR_TPDO_MAP_OBJ;
+        pdo->Node->Error    = CO_ERR_TPDO_MAP_OBJ;
+        pdo[num].Identifier = CO_TPDO_COBID_OFF;
         return;
     }
     if (pdo[num].Identifier != CO_TPDO_COBID_OFF) {
